@@ -119,3 +119,14 @@ From JP Require Import Proofs.TieEnv Gen.Env.
 Theorem C05_signatures_regenerated : g_builtin_registry = builtin_registry /\ g_max_int_index = 2 ^ 53 - 1 /\ g_min_int_index = - (2 ^ 53) + 1.
 Proof. repeat split; reflexivity. Qed.
 Print Assumptions C05_signatures_regenerated.
+
+(* The validity rules as a grammar.  With the registry JSONPathEnvironment.setup_function_extensions builds, the texts compile() accepts are exactly
+   the strings of bf_grammar (Spec/BuiltinGrammar.v: the RFC 9535 ABNF with the typing rules of 2.4.3 and the signatures of 2.4.4-2.4.8 written
+   into comparable, test-expr and the calls - singular comparands, value-typed and logical calls, well-typed arguments) whose integers are in range:
+   Proofs/AbnfSpellG.v (every such string compiles) and Proofs/TextSoundB.v (nothing else does). *)
+From JP Require Import Model.Ast Model.Api Spec.Abnf Spec.Rfc9535Grammar Spec.BuiltinGrammar Proofs.StringProofs Proofs.TextSoundB.
+Theorem C05_builtin_exact : forall cfg s, reg cfg = builtin_registry -> forallb is_scalar s = true ->
+  ((exists q, m_compile cfg s = Ok q) -> derives bf_grammar (R r_jsonpath_query) s) /\
+  (derives bf_grammar (R r_jsonpath_query) s -> exists B, min_idx cfg <= - B -> B <= max_idx cfg -> exists q, m_compile cfg s = Ok q).
+Proof. exact builtin_exact. Qed.
+Print Assumptions C05_builtin_exact.
